@@ -1,8 +1,77 @@
-"""B-line-hdr: the HEADER side of read::line  (DESIGN.md 6 C04 "header decode incl. v5 entry formats", C01 "header
-validation"; carrier 4 of batch `line`, which this batch extends: `line.populate` is run unchanged, so `LineHdr`,
-`valid_line_hdr`, `LineProgramHeader::lh()` ... are THE SAME definitions the machine of batch `line` requires).
+"""B-line-hdr: the HEADER side of read::line  (DESIGN.md 6 C04 "header decode incl. v5 entry formats", "sequence slicing";
+C01 "header validation of zero/unsupported parameters", no panic on any bytes).  Carrier 4 of batch `line`, which this
+batch extends: `line.populate` runs first and unchanged, so `LineHdr`, `valid_line_hdr`, `LineProgramHeader::lh()`,
+`FileEntry::parse`, `LineRows::next_row`, `remove_trailing` ... are THE SAME definitions / contracts; everything of batch
+`line` is re-verified here (its known finding F-line-3 = [C04:monotone-rows] on `LineRows::next_row` therefore also fails
+here, under the same function label and tag).
 
-WORK IN PROGRESS header - completed at the end of the file's development.
+Spec: vx/specs/line_hdr.rs (loaded into crate::read::line; written from DWARF 5 6.2.4, 6.2.4.1, table 7.27 and DWARF 2-4
+6.2.4) + module `aspec` = head of vx/specs/attrs.rs and the size functions GENERATED from `attrs.FORMS` (one table for
+unit.rs parse_attribute in batch attrs and line.rs parse_attribute here).  Every spec fn takes the reader view positioned
+at the item it describes; `view_at(v, k)` is v after k bytes.
+
+Functions under contract (real text of /repo/src/read/line.rs; generic in Reader::Offset, no R-OFFSET):
+  FileEntryFormat::parse        [C04:entry-format][C01:entry-format-one-path] Ok(v) ==> v.len == format_count byte &&
+                                exactly one DW_LNCT_path descriptor - for EVERY format_count, 0 included;
+                                [C04:entry-format-fields] descriptor i = ULEB pair number i (content type kept in a u16:
+                                codes > 0xffff become an unknown code; form codes > 0xffff are rejected); [C04:entry-format-len]
+  parse_attribute (line-table form decoder)   [C04:attr-<form>] per form of attrs.FORMS: value class + exact value (7.5.5/7.5.6),
+                                [C04:attr-len] exact consumption == form_len (the generated size functions),
+                                [C04:attr-unknown-form], [C04:attr-total-<form>] a complete field of a form that 6.2.4.1
+                                names for the standard content types decodes
+  parse_directory_v5            requires [C01:path-unwrap] one_path(formats): the `path_name.unwrap()` obligation is PROVED
+                                from it; [C04:directory-v5] the result is the decoded DW_LNCT_path field; [C04:directory-v5-len]
+  parse_file_v5                 same unwrap obligation; [C04:file-v5-path|-directory-index|-timestamp|-size|-md5|-source|-len]:
+                                each component is the decoded value of the (last) field of its content type - unsigned reading
+                                of data1/2/4/8, udata, non-negative sdata; MD5 = the 16 bytes of a data16 / 16-byte block;
+                                0 / zeros / None when absent; unknown content types are skipped by their form
+  LineProgramHeader::parse      versions 2-5: [C04:header-fields] (unit_length/format, version 2..=5, v5 address_size +
+                                segment_selector_size == 0, header_length, minimum_instruction_length,
+                                maximum_operations_per_instruction from version 4 on else 1, default_is_stmt, line_base (i8),
+                                line_range, opcode_base: predicate `lp_fixed_def`), [C04:header-opcode-lengths]
+                                standard_opcode_lengths = opcode_base - 1 bytes as a VIEW, [C04:header-program] program_buf =
+                                the rest of the unit after header_length as a VIEW, [C04:header-valid][C01:header-valid]
+                                `valid_line_hdr(h.lh())` (0 rejected for min_inst_len / max_ops / line_range / opcode_base),
+                                [C04:header-machine] h.lh() == lp_lh, [C04:header-dirs-v4] / [C04:header-files-v4] the
+                                null-terminated lists entry by entry incl. the terminator, [C04:header-dir-format-v5] /
+                                [C04:header-dirs-v5] / [C04:header-file-format-v5] / [C04:header-files-v5] the entry-format
+                                driven tables entry by entry (count == ULEB count), [C04:header-comp] entry 0 of versions 2-4,
+                                [C04:header-offset], [C04:header-consumed] exactly initial length + unit_length consumed,
+                                [C01:frame]; all four Vec-building loops: length + per-element invariants, termination
+  DebugLine::program            [C04:program-header] the header parsed at `offset` (`parsed_from`), [C04:header-valid],
+                                [C04:program-view]
+  IncompleteLineProgram::sequences   [C04:sequences-header] header unchanged but for define_file, [C04:sequences-slices] the
+                                instruction slices tile a prefix of the program in order without gaps/overlaps (each >= 1
+                                byte: `remove_trailing` between the two cursor positions), [C04:sequence-bounds] (tagged
+                                mid-point assertion over the ghost trace of rows handed out by next_row since the previous
+                                sequence ended: end == address of the end_sequence row, start == address of the first row
+                                or 0 if the end_sequence row is the only one), termination (cursor length)
+  LineRows::next_row            (item of batch line) + one frame clause `!(res is Err) ==> within(old cursor, new cursor)`
+                                and its loop invariant (`strengthen_next_row`): needed for remove_trailing's precondition
+
+Assumed (TRUSTED = line.TRUSTED + 1):
+  verif_read_u8_array16         R-U8ARRAY: `Reader::read_u8_array::<[u8; 16]>()` (generic over `A: Default + AsMut<[u8]>`, dropped
+                                from the trait by batch core) at its only instantiation, body = read_slice into [0u8; 16];
+                                contract: 16 bytes consumed, a[k] == byte k.  Cannot be proved from core's `read_slice` contract
+                                (RView has no `start + len <= root.len()` invariant, so `subrange` cannot be indexed)
+  A-DERIVE-EQ (ghost text)      `==` of #[derive(PartialEq)] DwLnct is structural (attrs.derived_eq)
+  closure contract of `comp_name.map(|name| FileEntry {..})`: inserted annotation, verified against the closure body
+Custom rewrites (logged): R-CLONE x4 (reader_clone / instructions_clone), R-CLOSURE x3 (`for _ in` gets a name),
+  R-U8ARRAY x1.  `hide(..)` of the four table predicates at the start of `parse` (revealed inside the table loops).
+
+Findings: none new (every obligation of the new functions is discharged on the pinned tree).  Observations, each with a
+native program (native/src/bin/f_line_hdr_<n>.rs):
+  O-line-hdr-1  versions 2-4 store the caller-supplied `address_size` unchecked; 0 or > 8 makes the machine panic in
+                `ones_sized` (shift overflow).  It is an API argument, not section bytes (unit headers validate it), hence
+                the explicit `requires [C04:address-size-pre] valid_address_size(address_size)` on parse / program.
+  O-line-hdr-2  a v5 header with format_count == 0 and entry count == 0 (allowed by the text of 6.2.4 items 9/11) is
+                rejected with MissingFileEntryFormatPath; the exactly-one-path check is what makes the unwraps safe.
+
+Not decided here: the row-level functional statement (rows == iterate line_step) and with it "resuming a sequence yields
+the rows of the straight run" beyond slices + fresh registers ([C04:resume] of batch line); start <= end of a sequence
+(false on the pinned tree: F-line-3); LineProgramHeader accessors (directory(), file(), file_has_*); the Section /
+borrow plumbing of DebugLine; acceptance (totality) of whole headers; llvm-dwarfdump agreement.  `sequences` has no canary
+twin (its search hits the rlimit in the whole-module run; its only `requires` is the canary-guarded valid_line_hdr).
 """
 import re
 from lib import *
@@ -10,7 +79,7 @@ from batches import core
 from batches import line
 from batches import attrs
 
-TRUSTED = list(line.TRUSTED)
+TRUSTED = list(line.TRUSTED) + ['verif_read_u8_array16']
 VERUS_ARGS = ['--rlimit', '40']
 RETRY_RLIMIT = 120
 OWN = ['C01', 'C04']
@@ -153,7 +222,9 @@ pub open spec fn seqs_end<R: Reader>(pv: RView, s: Seq<LineSequence<R>>) -> nat 
 /// no overlaps, each at least one byte long
 pub open spec fn seqs_tile<R: Reader>(pv: RView, s: Seq<LineSequence<R>>, upto: nat) -> bool {
     &&& forall|i: int| 0 <= i < s.len() ==> inside(pv, (#[trigger] s[i]).iv()) && s[i].iv().len >= 1
-    &&& forall|i: int| 0 <= i < s.len() ==> (#[trigger] s[i]).iv().start == (if i == 0 { pv.start } else { s[i - 1].iv().start + s[i - 1].iv().len })
+    &&& s.len() > 0 ==> s[0].iv().start == pv.start
+    // (two-trigger form: instantiated only for index terms that already exist - no matching loop through s[i - 1])
+    &&& forall|i: int, j: int| 0 <= i && j == i + 1 && j < s.len() ==> (#[trigger] s[j]).iv().start == (#[trigger] s[i]).iv().start + s[i].iv().len
     &&& upto == seqs_end(pv, s)
 }
 """
@@ -318,7 +389,9 @@ use crate::aspec::*;''')
     hp.insert_after('                source: None,\n            }', ' }')
     hp.insert_after('comp_name.map(|name', ': R')
     hp.insert_before('FileEntry {\n                path_name: AttributeValue::String(name),', f'-> (e: FileEntry<R, Offset>) ensures {ZERO_ENTRY} {{ ')
-    hp.splice('parse', ret='res', canary=True, requires=[
+    # (spinoff_prover: a fresh solver instance for this function - its cost then does not depend on what the shared
+    # instance has seen from the other 90 functions of the module; measured 75-90M rlimit units instead of 170M)
+    hp.splice('parse', ret='res', attrs='#[verifier::spinoff_prover]', requires=[
         # versions 2-4 have no address_size field: the caller passes the address size of the unit (validated by the unit
         # header parser).  DebugLine::program documents "must match the compilation unit"; see observation O-line-hdr-1
         '[C04:address-size-pre] valid_address_size(address_size)'],
@@ -333,6 +406,10 @@ use crate::aspec::*;''')
         f'[C01:frame] within({HB0}, {FIN})'],
         before=[('let (unit_length, format) = input.read_initial_length()?;', 'let ghost b0 = input.rv(); let ghost given = address_size; let ghost tv = lp_tables(b0);'),
                 ('let minimum_instruction_length = rest.read_u8()?;', 'proof {\n assert(header_length.as_nat() == lp_header_length(b0) && rest.rv() == lp_hdr(b0) && program_buf.rv() == lp_program(b0)); // [C04:header-fields][C04:header-program]\n }'),
+                ('if maximum_operations_per_instruction == 0 {', 'proof {\n assert(minimum_instruction_length as int == lp_lh(b0, given).min_inst_len && maximum_operations_per_instruction as int == lp_lh(b0, given).max_ops '
+                 '&& rest.rv() == view_at(lp_hdr(b0), lp_q(b0))); // [C04:header-fields]\n }'),
+                ('if opcode_base == 0 {', 'proof {\n assert(line_encoding.default_is_stmt == lp_lh(b0, given).default_is_stmt && line_encoding.line_base as int == lp_lh(b0, given).line_base '
+                 '&& line_encoding.line_range as int == lp_lh(b0, given).line_range && opcode_base as int == lp_lh(b0, given).opcode_base && rest.rv() == view_at(lp_hdr(b0), lp_q(b0) + 4)); // [C04:header-fields]\n }'),
                 ('let directory = rest.read_null_terminated_slice()?;', 'let ghost vb = rest.rv(); proof { reveal(dirs_v4_ok); }'),
                 ('include_directories.push(parse_directory_v5(', 'proof { reveal(dirs_v5_ok); }'),
                 ('file_names.push(parse_file_v5(', 'proof { reveal(files_v5_ok); }'),
@@ -365,7 +442,8 @@ use crate::aspec::*;''')
             decreases rest.rv().len''',
                1: f'''invariant
                 {FIX}, encoding.version >= 5,
-                fmts_ok(tv, directory_entry_format@), count as nat == entries_count(tv),
+                fmts_ok(tv, directory_entry_format@), // [C04:header-dir-format-v5]
+                count as nat == entries_count(tv), // [C04:header-dirs-v5]
                 adv(entries_view(tv), rest.rv(), entries_len(entries_view(tv), encoding, directory_entry_format@, _verif_i as int)), // [C04:header-dirs-v5]
                 include_directories@.len() == _verif_i,
                 dirs_v5_ok(entries_view(tv), encoding, directory_entry_format@, include_directories@), // [C04:header-dirs-v5]''',
@@ -380,7 +458,8 @@ use crate::aspec::*;''')
             decreases rest.rv().len''',
                3: f'''invariant
                 {FIX}, encoding.version >= 5,
-                fmts_ok(fv, file_name_entry_format@), count as nat == entries_count(fv),
+                fmts_ok(fv, file_name_entry_format@), // [C04:header-file-format-v5]
+                count as nat == entries_count(fv), // [C04:header-files-v5]
                 adv(entries_view(fv), rest.rv(), entries_len(entries_view(fv), encoding, file_name_entry_format@, _verif_i as int)), // [C04:header-files-v5]
                 file_names@.len() == _verif_i,
                 files_v5_ok(entries_view(fv), encoding, file_name_entry_format@, file_names@), // [C04:header-files-v5]'''})
@@ -412,7 +491,7 @@ use crate::aspec::*;''')
     sq.clean(offset=False)
     sq.own(OWN)
     PV = 'self.hdr().program_view()'
-    sq.splice('sequences', ret='res', canary=True, requires=['[C04:valid-header] valid_line_hdr(self.hdr().lh())'], ensures=[
+    sq.splice('sequences', ret='res', requires=['[C04:valid-header] valid_line_hdr(self.hdr().lh())'], ensures=[
         # DW_LNE_define_file may have appended to the file table; nothing else of the header changes
         '[C04:sequences-header] res matches Ok(p) ==> (&p.0).hdr().same_but_files(&self.hdr())',
         # "instructions = the slice between the two cursor positions": the sequences tile a prefix of the program, in order,
